@@ -27,10 +27,12 @@ NOSTD = "encoder,xz,lzip,optimization"   # no_std build: crate-local Read/Write/
 FILE_DEPS = {
     "xz/writer.rs": ["xz/reader.rs", "xz.rs", "enc/lzma2_writer.rs"],
     "xz/reader.rs": ["xz.rs", "lzma2_reader.rs"],
-    "lzip/writer.rs": ["lzip.rs", "enc/lzma_writer.rs", "enc/lzma2_writer.rs"],
+    "lzip/writer.rs": ["lzip.rs", "enc/lzma_writer.rs", "enc/lzma2_writer.rs", "enc/mod.rs"],
+    "enc/mod.rs": ["enc/lzma_writer.rs"],
     "enc/lzma_writer.rs": ["enc/lzma2_writer.rs"],
     "enc/lzma2_writer.rs": ["enc/range_enc.rs"],
     "enc/range_enc.rs": ["range_dec.rs"],
+    "enc/encoder.rs": ["enc/range_enc.rs", "range_dec.rs", "decoder.rs", "state.rs"],
     "lzip/reader.rs": ["lzip.rs", "lzma_reader.rs", "range_dec.rs"],
     "filter/bcj/arm.rs": ["filter/bcj.rs"], "filter/bcj/ppc.rs": ["filter/bcj.rs"], "filter/bcj/sparc.rs": ["filter/bcj.rs"],
     "filter/bcj/x86.rs": ["filter/bcj.rs"], "filter/bcj/ia64.rs": ["filter/bcj.rs"], "filter/bcj/riscv.rs": ["filter/bcj.rs"],
@@ -156,7 +158,7 @@ U(id="C04.check", props=["C04", "C02"], file="xz.rs",
   contract="for every data, every split of the updates and every expected field: verify <=> expected equals check_fn(data) byte for byte with the exact field length")
 
 PAYLOAD_LZMA_W = ["payload layer: LZMAWriter::new -> zeroed encoder + real RangeEncoder; LZEncoder::fill_window -> accepts all bytes (ghost count); LZMAEncoder::encode_for_lzma1 -> Ok(()); LZMAWriter::finish -> emits 1..4 bytes (the real LZMAWriter::write loop and size prechecks run on these)"]
-PARK(id="C02.lzip.split", props=["C02", "C18", "C03", "C07"], file="lzip/writer.rs", extra_files=["lzip.rs", "enc/lzma_writer.rs", "enc/lzma2_writer.rs"],
+PARK(id="C02.lzip.split.real", props=["C02", "C18", "C03", "C07"], file="lzip/writer.rs", extra_files=["lzip.rs", "enc/lzma_writer.rs", "enc/lzma2_writer.rs"],
   harnesses=["c02_lzip_members_e1", "c02_lzip_members_e4", "c02_lzip_members_unlimited", "c07_lzip_two_writes"],
   contract_stubs=PAYLOAD_LZMA_W,
   functions=[("src/lzip/writer.rs", "write", "Write for LZIPWriter"), ("src/lzip/writer.rs", "new", "LZIPWriter"), ("src/lzip/writer.rs", "start_new_member"),
@@ -247,7 +249,7 @@ U(id="C17.dec.lzma2", props=["C17", "C06"], file="lzma2_reader.rs", harnesses=["
   functions=[("src/lzma2_reader.rs", "get_dict_size"), ("src/lzma2_reader.rs", "get_memory_usage")],
   contract="forall dict_size:u32: no overflow; rounded dictionary is a multiple of 16 covering dict_size; estimate >= dictionary + 64 KiB chunk buffer and within 104 KiB of it")
 
-U(id="C02.lzip.hist", props=["C02", "C18", "C03", "C07", "C19"], file="lzip/writer.rs",
+U(id="C02.lzip.hist", props=["C02", "C18"], timeout_quick=600, file="lzip/writer.rs",
   harnesses=["c02_lzip_hist_n4101"], thorough_harnesses=["c02_lzip_hist_n10", "c02_lzip_hist_n8193"],
   contract_stubs=PAYLOAD_LZMA_W, kind="bounded", bound="concrete histories: one write of 10 / 4101 / 8193 position-dependent bytes then finish; member size = dict = 4096",
   functions=[("src/lzip/writer.rs", "write", "Write for LZIPWriter"), ("src/lzip/writer.rs", "new", "LZIPWriter"), ("src/lzip/writer.rs", "start_new_member"),
@@ -338,6 +340,24 @@ U(id="C08.cut", props=["C08", "C18", "C06"], file="lzma2_reader_mt.rs", harnesse
   kind="bounded", bound="one cutter step; chunk data size 1..4 bytes (size arithmetic unrestricted); pending unit empty or 2 bytes",
   functions=[("src/lzma2_reader_mt.rs", "read_and_dispatch_chunk")],
   contract="a work unit is cut (0x00 appended, sent) exactly before a dictionary-resetting chunk (control >= 0xE0 or 0x01) and at the end marker; chunk bytes appended unchanged with the sizes their header declares; reserved control bytes rejected")
+U(id="C18.xz.split", props=["C18", "C02", "C07"], file="xz/writer.rs", features=NOSTD, harnesses=["c18_xz_write_splits_blocks"],
+  contract_stubs=["XZWriter::write_stream_header / prepare_next_block / finish_current_block -> ghost call log with their contracts (bodies proved in C02.xz.shdr, C03.xz.unpadded, C02.xz.index)", "payload chain accepts all bytes"],
+  functions=[("src/xz/writer.rs", "write", "Write for XZWriter"), ("src/xz/writer.rs", "should_finish_block")],
+  contract="one write of any n<=9000 bytes with block_size 4096: header first; blocks opened/closed alternately; every block 1..=4096 bytes; blocks partition the bytes in order; everything consumed and counted once")
+PARK(id="C02.lzip.split", props=["C02", "C18", "C07"], file="lzip/writer.rs", features=NOSTD, harnesses=["c02_lzip_write_splits_members"],
+  contract_stubs=["LZIPWriter::start_new_member / finish_current_member -> ghost member log with their contracts (bodies: C02.lzip.hist)", "payload writer accepts all bytes (LZEncoder::fill_window, encode_for_lzma1 stubs under the real LZMAWriter::write)"],
+  functions=[("src/lzip/writer.rs", "write", "Write for LZIPWriter"), ("src/lzip/writer.rs", "should_finish_member"), ("src/enc/lzma_writer.rs", "write", "Write for LZMAWriter")],
+  contract="one write of any n<=9000 bytes with member size 4096: members opened/closed alternately, each 1..=4096 bytes and full except the last, partition of the input in order, per-member CRC and size computed from exactly the member's bytes")
+U(id="C12.lzip.member", props=["C12", "C04"], file="lzip/reader.rs", features=NOSTD,
+  harnesses=["c12_lzip_start_member_valid", "c12_lzip_trailing_garbage_after_member"],
+  known_findings=[{"harness": "kf_c04_lzip_damaged_header_is_eof"}],
+  contract_stubs=["LZDecoder::new -> empty decoder; LZMADecoder::new -> zeroed object"],
+  functions=[("src/lzip/reader.rs", "start_next_member"), ("src/lzip.rs", "parse", "LZIPHeader")],
+  contract="valid member start => Ok(true), decoder set up, counters restarted, 11 bytes consumed; after a complete member: EOF or non-magic bytes => clean end (the loss the format defines); known finding D16: damaged-but-recognisable header and foreign first bytes are also reported as clean end")
+BITCHAN = ["bit channel: RangeEncoder::encode_bit/encode_direct_bits and RangeDecoder::decode_bit/decode_direct_bits replaced by a FIFO of (slot tag, bit) events; the decoder asserts it reads the slot the encoder wrote (the real bit-tree functions run on top)"]
+U(id="C01.sym.len", props=["C01"], file="enc/encoder.rs", harnesses=["c01_sym_len_ps0", "c01_sym_len_ps15"], thorough_harnesses=["c01_sym_len_ps5"], contract_stubs=BITCHAN,
+  functions=[("src/enc/encoder.rs", "encode", "LengthEncoder"), ("src/decoder.rs", "decode", "LengthCoder"), ("src/enc/range_enc.rs", "encode_bit_tree"), ("src/range_dec.rs", "decode_bit_tree")],
+  contract="forall len in 2..=273 (pos_state 0, 15; 5 in thorough): decode(encode(len)) = len, same probability slots in the same order, channel drained")
 
 # ---------------------------------------------------------------------------------------- quick-tier budget
 # Harnesses kept in the quick tier per unit; every other harness of the unit runs in the thorough tier only.
